@@ -369,7 +369,7 @@ Section Mapping.
   Variable max : nat.
 
   Definition m_loaded_ok (pc : mpc) : Prop :=
-    match pc with MLoaded cur => 0 < max -> (cur < Z.of_nat max)%Z | _ => True end.
+    match pc with MLoaded _ cur => 0 < max -> (cur < Z.of_nat max)%Z | _ => True end.
 
   Definition MInv (s : msh * list mpc) : Prop :=
     counter (fst s) = Z.of_nat (countb m_holds (snd s)) /\
@@ -385,26 +385,31 @@ Section Mapping.
     pose proof (fun x => countb_upd_nth m_live ls i pc x E) as HL.
     pose proof (Forall_nth_error _ _ _ _ Hf E) as Hpc.
     assert (FU : forall x, m_loaded_ok x -> Forall m_loaded_ok (upd_nth i x ls)) by (intros x Hx; apply Forall_upd_nth; assumption).
-    unfold mstep. destruct pc as [|cur| | | |].
+    unfold mstep, mstep_gen. destruct pc as [e|e cur|e| | | |].
     - destruct max as [|mx] eqn:Emax.
-      + specialize (HA MActive). specialize (HL MActive). cbn in HA, HL |- *.
+      + specialize (HA (MActive e)). specialize (HL (MActive e)). cbn in HA, HL |- *.
         split; [lia|]. split; [lia|]. split; [apply FU; exact I|]. intros Hx; lia.
       + rewrite <- Emax in *.
         destruct ((0 <? max) && (Z.of_nat max <=? counter sh)%Z) eqn:Ec.
         * specialize (HA MRefused). specialize (HL MRefused). cbn in HA, HL |- *.
           split; [lia|]. split; [lia|]. split; [apply FU; exact I|]. exact Hm.
-        * specialize (HA (MLoaded (counter sh))). specialize (HL (MLoaded (counter sh))). cbn in HA, HL |- *.
+        * specialize (HA (MLoaded e (counter sh))). specialize (HL (MLoaded e (counter sh))). cbn in HA, HL |- *.
           split; [lia|]. split; [lia|]. split; [|exact Hm]. apply FU. cbn. intros Hx.
           apply andb_false_iff in Ec. destruct Ec as [Ec|Ec]; [apply Nat.ltb_ge in Ec; lia|apply Z.leb_gt in Ec; lia].
     - cbn in Hpc. destruct (counter sh =? cur)%Z eqn:Ec.
-      + apply Z.eqb_eq in Ec. specialize (HA MActive). specialize (HL MActive). cbn in HA, HL |- *.
+      + apply Z.eqb_eq in Ec. specialize (HA (MActive e)). specialize (HL (MActive e)). cbn in HA, HL |- *.
         split; [lia|]. split; [lia|]. split; [apply FU; exact I|]. intros Hx. specialize (Hpc Hx). lia.
-      + specialize (HA MStart). specialize (HL MStart). cbn in HA, HL |- *.
+      + specialize (HA (MStart e)). specialize (HL (MStart e)). cbn in HA, HL |- *.
         split; [lia|]. split; [lia|]. split; [apply FU; exact I|]. exact Hm.
-    - specialize (HA MLive). specialize (HL MLive). cbn in HA, HL |- *.
-      split; [lia|]. split; [lia|]. split; [apply FU; exact I|]. intros Hx. specialize (Hm Hx). lia.
+    - destruct e.
+      + specialize (HA MEarlyClosed). specialize (HL MEarlyClosed). cbn in HA, HL |- *.
+        split; [lia|]. split; [lia|]. split; [apply FU; exact I|]. intros Hx. specialize (Hm Hx). lia.
+      + specialize (HA MLive). specialize (HL MLive). cbn in HA, HL |- *.
+        split; [lia|]. split; [lia|]. split; [apply FU; exact I|]. intros Hx. specialize (Hm Hx). lia.
     - specialize (HA MDone). specialize (HL MDone). cbn in HA, HL |- *.
       split; [lia|]. split; [lia|]. split; [apply FU; exact I|]. intros Hx. specialize (Hm Hx). lia.
+    - specialize (HA MDone). specialize (HL MDone). cbn in HA, HL |- *.
+      split; [lia|]. split; [lia|]. split; [apply FU; exact I|]. exact Hm.
     - specialize (HA MDone). specialize (HL MDone). cbn in HA, HL |- *.
       split; [lia|]. split; [lia|]. split; [apply FU; exact I|]. exact Hm.
     - specialize (HA MRefused). specialize (HL MRefused). cbn in HA, HL |- *.
@@ -415,39 +420,42 @@ Section Mapping.
   Proof. intros H. unfold mrun. apply inv_all_schedules; [intros s i; apply m_step|exact H]. Qed.
 End Mapping.
 
-Lemma m_fresh n : countb m_holds (repeat MStart n) = 0 /\ countb m_live (repeat MStart n) = 0 /\
-                  forall max, Forall (m_loaded_ok max) (repeat MStart n).
+Lemma m_fresh (earlies : list bool) :
+  countb m_holds (map MStart earlies) = 0 /\ countb m_live (map MStart earlies) = 0 /\
+  forall max, Forall (m_loaded_ok max) (map MStart earlies).
 Proof.
-  induction n as [|k (I1 & I2 & I3)]; cbn; [auto|]. split; [exact I1|]. split; [exact I2|].
+  induction earlies as [|e k (I1 & I2 & I3)]; cbn; [auto|]. split; [exact I1|]. split; [exact I2|].
   intros max. constructor; [exact I|apply I3].
 Qed.
 
-(* any limit, any number of local connections arriving, any schedule of their atomic actions:
-   live tunnels <= slots held = activeConnCount <= limit *)
-Theorem mapping_cap_never_exceeds max n sched :
-  let s := mrun Current max {| counter := 0; live := 0 |} (repeat MStart n) sched in
+(* any limit, any number of local connections arriving — each either carried through to a running tunnel or closed by
+   its peer between RegisterTunnel and Start —, any schedule of their atomic actions:
+   live tunnels <= slots held = activeConnCount <= limit, and the counter never goes below zero *)
+Theorem mapping_cap_never_exceeds max (earlies : list bool) sched :
+  let s := mrun Current max {| counter := 0; live := 0 |} (map MStart earlies) sched in
   (0 < max -> (counter (fst s) <= Z.of_nat max)%Z) /\
   counter (fst s) = Z.of_nat (countb m_holds (snd s)) /\
   live (fst s) = Z.of_nat (countb m_live (snd s)) /\
   (0 <= live (fst s) <= counter (fst s))%Z.
 Proof.
-  intros s. destruct (m_fresh n) as (F1 & F2 & F3).
+  intros s. destruct (m_fresh earlies) as (F1 & F2 & F3).
   assert (H : MInv max s).
   { apply m_all. unfold MInv. cbn [fst snd counter live]. rewrite F1, F2. split; [reflexivity|]. split; [reflexivity|].
     split; [apply F3|]. intros; lia. }
   destruct H as (Hc & Hl & _ & Hm). split; [exact Hm|]. split; [exact Hc|]. split; [exact Hl|].
   pose proof (countb_imp m_live m_holds (snd s)) as Hi. rewrite Hc, Hl.
-  assert (countb m_live (snd s) <= countb m_holds (snd s)) by (apply Hi; intros [| | | | |]; cbn; congruence). lia.
+  assert (countb m_live (snd s) <= countb m_holds (snd s)) by (apply Hi; intros [?|? ?|?| | | |]; cbn; congruence). lia.
 Qed.
 
 (* a refused arrival has written nothing (the CAS loop only writes on success) *)
 Lemma mapping_refusal_step max pc sh pc' sh' :
   mstep Current max pc sh = (pc', sh') -> pc' = MRefused -> sh' = sh.
 Proof.
-  unfold mstep. destruct pc as [|cur| | | |]; intros H Hr; subst.
+  unfold mstep, mstep_gen. destruct pc as [e|e cur|e| | | |]; intros H Hr; subst.
   - destruct max; [congruence|].
     destruct ((0 <? S max) && (Z.of_nat (S max) <=? counter sh)%Z); congruence.
   - destruct (counter sh =? cur)%Z; congruence.
+  - destruct e; congruence.
   - congruence.
   - congruence.
   - congruence.
@@ -456,15 +464,112 @@ Qed.
 
 (* the code as found: Load, Load, Add, Add *)
 Lemma mapping_cap_pinned_refuted :
-  exists sched, counter (fst (mrun Pinned 1 {| counter := 0; live := 0 |} [MStart; MStart] sched)) = 2%Z.
+  exists sched, counter (fst (mrun Pinned 1 {| counter := 0; live := 0 |} [MStart false; MStart false] sched)) = 2%Z.
 Proof. exists [0; 1; 0; 1]. vm_compute. reflexivity. Qed.
 
 (* the code as found, even WITHOUT any overlap: the slot is given back when handleConnection returns, while the
    tunnel it started lives on — two live tunnels under limit 1 with a strictly sequential schedule *)
 Lemma mapping_slot_lifetime_pinned_refuted :
-  exists sched, let s := mrun Pinned 1 {| counter := 0; live := 0 |} [MStart; MStart] sched in
+  exists sched, let s := mrun Pinned 1 {| counter := 0; live := 0 |} [MStart false; MStart false] sched in
                 live (fst s) = 2%Z /\ snd s = [MLive; MLive].
 Proof. exists [0; 0; 0; 1; 1; 1]. vm_compute. auto. Qed.
+
+(* the release WITHOUT the sync.Once: one connection closed by its peer between RegisterTunnel and Start is released
+   twice (counter -1), after which two connections are live under limit 1 — strictly sequential *)
+Lemma mapping_release_not_idempotent_refuted :
+  exists sched,
+    let s := run _ _ (mstep_gen false Current 1) ({| counter := 0; live := 0 |}, [MStart true; MStart false; MStart false]) sched in
+    live (fst s) = 2%Z /\ snd s = [MDone; MLive; MLive] /\
+    counter (fst (run _ _ (mstep_gen false Current 1) ({| counter := 0; live := 0 |}, [MStart true; MStart false; MStart false])
+                      (firstn 4 sched))) = (-1)%Z.
+Proof. exists [0; 0; 0; 0; 1; 1; 1; 2; 2; 2]. vm_compute. auto. Qed.
+
+(* ... the same history with the Once: the third connection is refused *)
+Lemma mapping_release_idempotent_witness :
+  let s := mrun Current 1 {| counter := 0; live := 0 |} [MStart true; MStart false; MStart false] [0; 0; 0; 0; 1; 1; 1; 2; 2; 2] in
+  fst s = {| counter := 1; live := 1 |} /\ snd s = [MDone; MLive; MRefused].
+Proof. vm_compute. auto. Qed.
+
+(* ---------------------------------------------------------------- 3b. release as events: idempotence *)
+Section Holder.
+  Variable max : nat.
+
+  Definition h_ok (lo : hloc) : Prop := h_holding lo = true -> h_acquired lo = true.
+  Definition HInv (s : Z * list hloc) : Prop :=
+    fst s = Z.of_nat (countb h_holding (snd s)) /\ Forall h_ok (snd s) /\ (0 < max -> (fst s <= Z.of_nat max)%Z).
+
+  Lemma h_step s i : HInv s -> HInv (sys_step _ _ (hstep true max) s i).
+  Proof.
+    destruct s as [c ls]. unfold HInv, sys_step. cbn [fst snd]. intros (Hc & Hf & Hm).
+    destruct (nth_error ls i) as [lo|] eqn:E; [|cbn [fst snd]; auto].
+    pose proof (fun x => countb_upd_nth h_holding ls i lo x E) as HA.
+    pose proof (Forall_nth_error _ _ _ _ Hf E) as Hlo. unfold h_ok in Hlo.
+    assert (FU : forall x, h_ok x -> Forall h_ok (upd_nth i x ls)) by (intros x Hx; apply Forall_upd_nth; assumption).
+    destruct lo as [todo acq hold]. unfold hstep. cbn [h_todo h_acquired h_holding] in *.
+    destruct todo as [|[|] r].
+    - specialize (HA {| h_todo := []; h_acquired := acq; h_holding := hold |}). cbn in HA |- *.
+      split; [lia|]. split; [apply FU; unfold h_ok; cbn; exact Hlo|exact Hm].
+    - destruct acq.
+      + match goal with |- context [upd_nth i ?x ls] => specialize (HA x) end. cbn in HA |- *.
+        split; [lia|]. split; [apply FU; unfold h_ok; cbn; auto|exact Hm].
+      + assert (hold = false) by (destruct hold; [specialize (Hlo eq_refl); discriminate|reflexivity]). subst hold.
+        destruct ((0 <? max) && (Z.of_nat max <=? c)%Z) eqn:Ec;
+          match goal with |- context [upd_nth i ?x ls] => specialize (HA x) end; cbn in HA |- *.
+        * split; [lia|]. split; [apply FU; unfold h_ok; cbn; auto|exact Hm].
+        * split; [lia|]. split; [apply FU; unfold h_ok; cbn; auto|].
+          intros Hx. apply andb_false_iff in Ec. destruct Ec as [Ec|Ec]; [apply Nat.ltb_ge in Ec; lia|apply Z.leb_gt in Ec; lia].
+    - destruct hold; cbn [orb];
+        match goal with |- context [upd_nth i ?x ls] => specialize (HA x) end; cbn in HA |- *.
+      + split; [lia|]. split; [apply FU; unfold h_ok; cbn; discriminate|]. intros Hx. specialize (Hm Hx). lia.
+      + split; [lia|]. split; [apply FU; unfold h_ok; cbn; discriminate|exact Hm].
+  Qed.
+
+  Lemma h_all c ts sched : HInv (c, ts) -> HInv (hrun true max c ts sched).
+  Proof. intros H. unfold hrun. apply inv_all_schedules; [intros s i; apply h_step|exact H]. Qed.
+End Holder.
+
+Lemma h_fresh (scripts : list (list hev)) :
+  countb h_holding (map h_new scripts) = 0 /\ Forall h_ok (map h_new scripts).
+Proof.
+  induction scripts as [|x t [I1 I2]]; cbn; [split; [reflexivity|constructor]|].
+  split; [exact I1|]. constructor; [unfold h_ok; cbn; discriminate|exact I2].
+Qed.
+
+(* idempotent release: for EVERY sequence of acquire / release / release-again events of every connection and every schedule,
+   the counter equals the number of connections that hold a slot — so it never goes below zero — and stays within the limit *)
+Theorem slot_release_idempotent max (scripts : list (list hev)) sched :
+  let s := hrun true max 0%Z (map h_new scripts) sched in
+  fst s = Z.of_nat (countb h_holding (snd s)) /\ (0 <= fst s)%Z /\ (0 < max -> (fst s <= Z.of_nat max)%Z).
+Proof.
+  intros s. destruct (h_fresh scripts) as [F1 F2].
+  assert (H : HInv max s).
+  { apply h_all. unfold HInv. cbn [fst snd]. rewrite F1. split; [reflexivity|]. split; [exact F2|]. intros; lia. }
+  destruct H as (Hc & _ & Hm). split; [exact Hc|]. split; [lia|exact Hm].
+Qed.
+
+Lemma slot_release_not_idempotent_refuted :
+  exists sched, let s := hrun false 1 0%Z (map h_new [[HAcq; HRel; HRel]; [HAcq]; [HAcq]]) sched in
+                countb h_holding (snd s) = 2 /\ fst (hrun false 1 0%Z (map h_new [[HAcq; HRel; HRel]; [HAcq]; [HAcq]]) (firstn 3 sched)) = (-1)%Z.
+Proof. exists [0; 0; 0; 1; 2]. vm_compute. auto. Qed.
+
+(* ---------------------------------------------------------------- 2b. Register split into evict ; insert *)
+(* the lock released around the evicted stream's Close(): the second Register finds room, the first inserts afterwards *)
+Lemma creg_split_refuted :
+  exists sched, length (fst (run _ _ (creg_split_step 2) ([(1, 1); (2, 2)]%N, [PStart 3 3; PStart 4 4]) sched)) = 3.
+Proof. exists [0; 1; 0]. vm_compute. reflexivity. Qed.
+
+(* ... while the atomic Register on the same callers, under the same schedule and every other, stays at 2 *)
+Lemma creg_atomic_witness :
+  forall sched, length (fst (rrun (creg_apply 2) [(1, 1); (2, 2)]%N
+                                  [{| r_todo := [RReg 3 3]; r_log := [] |}; {| r_todo := [RReg 4 4]; r_log := [] |}] sched)) <= 2.
+Proof.
+  intros sched.
+  assert (H : RInv 2 (fst (rrun (creg_apply 2) [(1, 1); (2, 2)]%N
+                                [{| r_todo := [RReg 3 3]; r_log := [] |}; {| r_todo := [RReg 4 4]; r_log := [] |}] sched))).
+  { apply client_registry_never_exceeds. split; [|cbn; lia].
+    cbn. constructor; [intros [H|[]]; discriminate|]. constructor; [intros []|constructor]. }
+  destruct H as [_ H]. apply H. lia.
+Qed.
 
 (* ================================================================ 4. storage-level per-client quotas *)
 Section Quota.
